@@ -884,6 +884,15 @@ def rule_dep(ctx):
     return dep_insts(ctx, "C08", __import__("sa.props.common", fromlist=["x"]).converter_entries(ctx.M), skip_groups=("tables",))
 
 
+def rule_r12(ctx) -> List[R.Inst]:
+    """every option a converter accepts is read: `move_right_by`, `raise_bad_mode`, … default to 'nothing special', so a converter
+    that stops reading one still passes every test and silently ignores what the caller asks for"""
+    from .common import unused_param_insts
+    return unused_param_insts(ctx, "C08.R12", ("reamber.algorithms.convert.",), "converter functions",
+                              "the conversion ignores what the caller asks for (a column shift that is not applied, a bad key count that is "
+                              "not refused)")
+
+
 SPECS = [
     RuleSpec("C08.R1", rule_r1, 50, "A1", "per-converter column mapping tables"),
     RuleSpec("C08.R2", rule_r2, 120, "M0", "every attribute store on a target chart/mapset hits a declared list or field"),
@@ -896,6 +905,7 @@ SPECS = [
     RuleSpec("C08.R9", rule_r9, 3, "A1", "paired lookup tables (keys <-> chart type / mode, sample set code <-> name) are mutually consistent"),
     RuleSpec("C08.R10", rule_r10, 17, "A3", "container-valued metadata is copied into the result, not shared with the source"),
     RuleSpec("C08.R11", rule_r11, 17, "A7", "conversions into a legacy code page say what happens to characters it lacks (total on Unicode metadata)"),
+    RuleSpec("C08.R12", rule_r12, 1, "A8", "every option a converter accepts is read"),
     RuleSpec("C08.D", rule_dep, 1, "M0", "rules of the shared code (timing engine, list classes, stacker) that the operations of this property reach"),
 ]
 
